@@ -213,7 +213,6 @@ func (w *World) exchangeBatch(batch *Batch, add []ID, rem []ID,
 	if len(add) == 0 && len(rem) == 0 {
 		panic("at least one component required to add or remove")
 	}
-	lock := w.lock()
 
 	relRemoved := false
 	tables := w.storage.getBatchTables(batch)
@@ -237,6 +236,10 @@ func (w *World) exchangeBatch(batch *Batch, add []ID, rem []ID,
 		})
 	}
 	w.storage.slices.tables = tables[:0]
+
+	// Lock only now: finding the target tables panics if a precondition is violated
+	// (component already present or missing), and must not leave the world locked.
+	lock := w.lock()
 
 	if len(rem) > 0 {
 		if w.storage.observers.HasObservers(OnRemoveComponents) {
